@@ -19,7 +19,7 @@ CHECKS = {
         ref='5/C02'),
     'C03': dict(
         text='Same exploration as C01 with the maximal-run oracle: for every returned storm/rise each member step is proved above its threshold and both neighbours at or below it (SMT obligations over the symbolic data on every path), N<=7 quick / 9 thorough.',
-        note='R-mode reading of the two strict comparisons; function level (match_storms); the SQL view storm_total_rain_depth is covered only when the DB-level harness is present.',
+        note='R-mode reading of the two strict comparisons; function level (match_storms); the SQL view storm_total_rain_depth is covered only when the DB-level harness is present.  DB level (C01, C03, C04): states with all validity patterns of G+1 instants, plus one stretch boundary between two neighbouring instants that both carry a level (after instant 1 or 2 quick, any position thorough).',
         ref='5/C03'),
     'C04': dict(
         text='All pairs of boolean flag vectors up to length N (7 quick, 9 thorough) through the real get_mystery_jump_mask and get_true_interval_masks; the resulting unexplained-rise and interstorm flags are proved equal to a declarative expansion of the property text, and the runs equal to the maximal True runs.  DB level: classify_intervals on symsql from any Inv_load state (G=4 at 1800 s; G=3 at 2700 s and 7200 s, steps that do not divide an hour): flag rows and interstorm intervals against the same declarative definitions over symbolic rain and level.',
@@ -46,7 +46,7 @@ CHECKS = {
         note='The FITPACK facts assumed are checked on the installed scipy at every run; FITPACK accuracy itself is outside; witness replays compare the real code with quadrature of the real function.',
         ref='5/C14'),
     'C15': dict(
-        text='SplineTransmissivity executed with quad replaced by an uninterpreted integral whose integrand is evaluated at one symbolic point (one path per linear piece), exp/log uninterpreted with exp(log t)=t: proved for symbolic knots (2-3 quick, 4 thorough), conductivities and level: T_min at and below the lowest knot, otherwise exactly one integral from the lowest knot to the level, integrand = exp(linear interpolant of log K) > 0, result T_min + integral; array and scalar calls produce identical terms, also for an array that is neither ascending nor descending and for integer arrays; no exception up to the highest knot.',
+        text='SplineTransmissivity executed with quad replaced by an uninterpreted integral whose integrand is evaluated at one symbolic point (one path per linear piece), exp/log uninterpreted with exp(log t)=t: proved for symbolic knots (2-3 quick, 4 thorough), conductivities and level: T_min at and below the lowest knot, otherwise exactly one integral up to the level from the lowest knot (or from a higher knot at or below the level, with the whole layers below it added as their exact value, the logarithmic mean of the two conductivities times the thickness), integrand = exp(linear interpolant of log K) > 0, result T_min + integral; array and scalar calls produce identical terms, also for an array that is neither ascending nor descending and for integer arrays; no exception up to the highest knot.',
         note='Monotonicity/continuity follow from the proved facts plus additivity of integrals; QUADPACK accuracy is only sampled at witness replays (closed form, 1e-6).',
         ref='5/C15'),
     'C10': dict(
